@@ -10,7 +10,7 @@ from ..core import (AnalysisError, local_defs, assigned_targets, body_nodes, cal
                     key_text, names_in, params, parent, stmts_of, unparse)
 from ..linform import NotPoly, Poly, eval_poly
 from ..normal import _dc, inline_temps
-from ..pattern import find, guards_at, guards_of, pmatch
+from ..pattern import P, find, guards_at, guards_of, pmatch
 
 KRY = 'tenpy/linalg/krylov_based.py'
 SPARSE = 'tenpy/linalg/sparse.py'
@@ -744,6 +744,10 @@ def run(prog, rep, tier):
     check_eshift(prog, rep)
     if check_cache_discipline(prog, rep) < 2:
         raise AnalysisError('KRYLOV-cache-reset: fewer than 2 Krylov classes fill the cache')
+    rep.rule('KRYLOV-restart', 'GMRES: reset() prepares the per-cycle state like __init__; unit '
+             'first vector')
+    if check_gmres(prog, rep) < 6:
+        raise AnalysisError('KRYLOV-restart: fewer than 6 per-cycle attributes compared')
     rep.floor('KRYLOV-cache-readonly', 8)
     rep.floor('WRAP-attrs', 8)
     rep.assumptions += ['Rayleigh quotients, residuals, convergence are NOT decided']
@@ -752,3 +756,93 @@ def run(prog, rep, tier):
         explanation='Sibling-loop agreement of the Lanczos recurrence (independence of N_cache), '
         'attribute discipline and adjoints of the wrapper operators, energy-shift bookkeeping, '
         'decided on the current source.')
+
+
+# ------------------------------------------------------------------ GMRES: restart == first cycle
+class _LastIndex(ast.NodeTransformer):
+    """self.X[0] and self.X[-1] both name "the current element" of a per-cycle list"""
+
+    def visit_Subscript(self, n):
+        self.generic_visit(n)
+        if is_self_attr(n.value) and isinstance(n.slice, ast.Constant) and n.slice.value == 0:
+            n.slice = ast.UnaryOp(op=ast.USub(), operand=ast.Constant(value=1))
+        return n
+
+
+def _cycle_events(f):
+    """attr -> canonical list of what the function does to self.<attr>"""
+    import copy
+    nf = inline_temps(f)
+    ev = {}
+    canon = lambda e: unparse(_LastIndex().visit(copy.deepcopy(e)))
+    for st in stmts_of(nf):
+        if isinstance(st, ast.Assign) and len(st.targets) == 1:
+            t, v = st.targets[0], st.value
+            if is_self_attr(t):
+                if isinstance(v, ast.List) and len(v.elts) == 1:
+                    ev.setdefault(t.attr, []).append(('current', canon(v.elts[0])))
+                else:
+                    ev.setdefault(t.attr, []).append(('set', canon(v)))
+            elif isinstance(t, ast.Subscript) and is_self_attr(t.value):
+                idx = canon(t).split('[', 1)[1]
+                if idx == '-1]':
+                    ev.setdefault(t.value.attr, []).append(('current', canon(v)))
+                else:
+                    ev.setdefault(t.value.attr, []).append(('item', idx, canon(v)))
+        elif isinstance(st, ast.Expr) and isinstance(st.value, ast.Call) and isinstance(
+                st.value.func, ast.Attribute):
+            c = st.value
+            recv = c.func.value
+            args = tuple(canon(a) for a in c.args)
+            if is_self_attr(recv):
+                if c.func.attr == 'append' and len(c.args) == 1:
+                    ev.setdefault(recv.attr, []).append(('current', args[0]))
+                else:
+                    ev.setdefault(recv.attr, []).append(('call', c.func.attr, args))
+            elif isinstance(recv, ast.Subscript) and is_self_attr(recv.value):
+                ev.setdefault(recv.value.attr, []).append(
+                    ('call-current', c.func.attr, args))
+    return ev, nf
+
+
+def check_gmres(prog, rep):
+    """KRYLOV-restart: GMRES.reset() starts a new cycle exactly like __init__ started the first
+    one (same per-cycle state from the same expressions, `rs[0]` read as `rs[-1]`); in both, the
+    first Krylov vector is the residual divided by ITS norm and e1 is scaled with that norm."""
+    m = prog.module(KRY)
+    fi, fr = m.functions.get('GMRES.__init__'), m.functions.get('GMRES.reset')
+    if fi is None or fr is None:
+        raise AnalysisError('GMRES.__init__ / GMRES.reset not found')
+    rep.unit(m)
+    (ei, ni), (er, nr) = _cycle_events(fi), _cycle_events(fr)
+    n = 0
+    for attr in sorted(set(ei) & set(er)):
+        n += 1
+        a = ei[attr]
+        rep.instance('KRYLOV-restart', {'attr': attr, 'init': repr(a), 'reset': repr(er[attr])})
+        if a != er[attr]:
+            st = [s for s in stmts_of(fr) if attr in unparse(s)]
+            rep.violation('KRYLOV-restart', m, 'GMRES.reset', 'differs:' + attr,
+                          'a restarted cycle must begin like the first one: __init__ prepares '
+                          '`self.%s` by %s, reset() by %s' % (attr, a, er[attr]),
+                          st[0].lineno if st else fr.lineno)
+    for q, nf in (('GMRES.__init__', ni), ('GMRES.reset', nr)):
+        start = [e for _, e in find(P('self.qs = [$$v.copy()]'), nf)]
+        norm_of = {}
+        for _, env in find(P('self.$a = npc.norm($$w)'), nf):
+            norm_of['self.' + env['$a']] = unparse(env['$$w'])
+        scal = [env for _, env in find(P('self.qs[$$i].iscale_prefactor(1.0 / $$r)'), nf)]
+        e1 = [env for _, env in find(P('self.e1.iscale_prefactor($$r)'), nf)]
+        ok = len(start) == 1 and len(scal) == 1 and len(e1) == 1
+        if ok:
+            v = unparse(start[0]['$$v'])
+            r, r1 = unparse(scal[0]['$$r']), unparse(e1[0]['$$r'])
+            ok = r == 'npc.norm(%s)' % v or norm_of.get(r) == v
+            ok = ok and r1 == r
+        rep.instance('KRYLOV-restart', {'function': q, 'what': 'unit first vector', 'ok': ok})
+        if not ok:
+            rep.violation('KRYLOV-restart', m, q, 'unit-start-vector',
+                          'the first Krylov vector must be the residual divided by the norm of '
+                          'that residual, and e1 scaled by the same number (Arnoldi needs an '
+                          'orthonormal basis; H y = |r| e1)', nf.lineno)
+    return n
